@@ -79,7 +79,8 @@ def rstmt(rnd, infn=False, fnames=('ff',), ops=OPS):
         return {'k': 'label', 'v': 'L1'}
     nargs = rnd.randint(0, 3)
     args = rnd.sample(['a', 'p', 'q'], nargs)
-    return {'k': 'function', 'name': rnd.choice(fnames) if fnames else 'ff', 'args': args,
+    defn = [f for f in fnames if f not in ('probe', 'hostFail')] or ['ff']
+    return {'k': 'function', 'name': rnd.choice(defn), 'args': args,
             'last': bool(args) and rnd.random() < 0.25,
             'body': [rstmt(rnd, True, fnames, ops) for _ in range(rnd.randint(1, 6))]}
 
